@@ -1,5 +1,6 @@
 """C15 - untrustworthy tempo data is rejected loudly, never turned into times."""
 from vf.runner import Ob
+from .common import _sync_section, _two_maps, _e2e  # noqa: F401
 from .common import *  # noqa: F401,F403
 
 LEVEL = "model_checking"
@@ -33,6 +34,11 @@ def obligations(tier):
     for nb in ([0, 1] if tier == "quick" else [0, 1, 2, 3]):
         obs.append(Ob(f"C15.sync_from_lines.NB{nb}", "CH", "harness.h_c18", "sync_corrupt", 1200, {"VF_NB": nb},
                       funcs=(SY + "SyncTrack.from_chart_lines",), bounds=f"{nb} tempo token lines: returns only when trustworthy, else ValueError"))
+    obs += _sync_section("C15", ["0,4,1", "4,0,1", "0,1,4"] if tier == "quick" else ["0,4,1", "4,0,1", "0,1,4", "0,4,4", "4,4", "0,4"])
+    for kz in ([5] if tier == "quick" else [3, 5, 7]):
+        obs.append(Ob(f"C15.zero_tempo_long.K{kz}", "CH", "harness.h_sync2", "zero_tempo_long", 900, {"VF_KZ": kz},
+                      funcs=(SY + "BPMEvents.timestamp_at_tick", SY + "BPMEvents._index_of_proximal_event", TK + "seconds_from_ticks_at_bpm (guards)"),
+                      bounds=f"{kz} tempo events with symbolic ticks, one zero tempo at any position, every hint and tick: ValueError exactly when the zero tempo governs, the tick is negative or the hint is too late"))
     return obs
 
 
